@@ -204,6 +204,12 @@ def run(rep, tier, seed):
                {k: v for k, v in c.items() if k != "delay"})
               for i, (s, c) in enumerate(cs)]
         cs = [x for i, x in enumerate(cs) if not common.keep(i, 3)]
+    # observations that start late (arrays, ingest limit or machines are
+    # contended): an ingest task still runs for exactly the duration
+    late = common.add_algs(
+        common.thin(common.plan_scope(tier), 1 if tier == "thorough" else 5),
+        lambda c: [{"kind": "queue"}, {"kind": "batch", "p": 1, "min": 1}])
+    cs = cs + late
     e1.sweep(rep, cs, monitors_for,
              {"delay": 2 if tier == "thorough" else 1})
     rep.nontrivial += len(table)
